@@ -16,6 +16,8 @@ FEED_CATS = DISPLAY_CATS + ('convert-from-unit', 'qstr', 'storage-label', 'add-u
 
 
 def run(ctx):
+    from .configtime import late_binding_closures as _late
+    _late(ctx, 'C19.R2', classes=('Recipe', 'RecipeStep', 'Container', 'PlateSlicer'))
     from .configtime import groupby_on_sorted_input as _groupby
     _groupby(ctx, 'C19.R2', ('Recipe.bake', 'Container._transfer', 'PlateSlicer._transfer', 'Container._transfer_slice'))
     from .configtime import precision_zero_is_a_value as _prec0
